@@ -3,6 +3,7 @@ package xmpp
 import (
 	"context"
 	"encoding/xml"
+	"errors"
 	"strings"
 	"sync"
 
@@ -149,12 +150,34 @@ func (r *Router) NewRoute() *Route {
 	return route
 }
 
+// ErrIQIdAlreadyPending is returned by SendIQ when a request with the same id is still awaiting its response.
+var ErrIQIdAlreadyPending = errors.New("an IQ request with this id is already awaiting its response")
+
 // NewIQResultRoute register a route that will catch an IQ result stanza with
 // the given Id. The route will only match ones, after which it will automatically
-// be unregistered
+// be unregistered.
+// A request whose id is still pending keeps its route: in that case the returned channel is closed
+// without a value, as for a request that gets no response (SendIQ reports ErrIQIdAlreadyPending instead).
 func (r *Router) NewIQResultRoute(ctx context.Context, id string) chan stanza.IQ {
+	result, err := r.newIQResultRoute(ctx, id)
+	if err != nil {
+		result = make(chan stanza.IQ)
+		close(result)
+	}
+	return result
+}
+
+// newIQResultRoute registers the pending request, unless a request with the same id is still waiting
+// for its response: the table holds one route per id, so registering over it would hand the response
+// of the earlier request to the new one and leave the earlier caller waiting for ever.
+// The route of a request whose context has ended, and which its clean-up has not removed yet, is replaced.
+func (r *Router) newIQResultRoute(ctx context.Context, id string) (chan stanza.IQ, error) {
 	route := NewIQResultRoute(ctx)
 	r.IQResultRouteLock.Lock()
+	if prev, ok := r.IQResultRoutes[id]; ok && prev.context.Err() == nil {
+		r.IQResultRouteLock.Unlock()
+		return nil, ErrIQIdAlreadyPending
+	}
 	r.IQResultRoutes[id] = route
 	r.IQResultRouteLock.Unlock()
 
@@ -165,7 +188,7 @@ func (r *Router) NewIQResultRoute(ctx context.Context, id string) chan stanza.IQ
 		r.removeIQResultRoute(id, route.result)
 	}()
 
-	return route.result
+	return route.result, nil
 }
 
 // removeIQResultRoute unregisters the pending request, unless the id has meanwhile been taken by a
